@@ -86,8 +86,7 @@ def check(repo: Repo, rep: Report) -> None:
     st_ = outer_sub[0].stmt
     holder_ = u(st_.targets[0].value) if isinstance(st_, ast.Assign) and isinstance(st_.targets[0], ast.Attribute) and st_.targets[0].attr == "disposable" else None
     groups_ = locals_by_init(ma, lambda v: isinstance(v, ast.Call) and call_name(v) == "CompositeDisposable")
-    adds_ = [s_ for s_ in sites(ma) if isinstance(s_.node, ast.Call) and isinstance(s_.node.func, ast.Attribute) and s_.node.func.attr == "add"
-             and dotted(s_.node.func.value) in groups_ and [u(a) for a in s_.node.args] == [holder_]]
+    adds_ = [r_ for g0 in groups_ for r_ in SY.registrations(ma, g0, holder_)] if holder_ else []
     from ..ctx import dominates as _dom
     ok_ = holder_ is not None and bool(adds_) and _dom(adds_[0], outer_sub[0])
     rep.ob("J4-registered-before-subscribe", ma, "merge_all: the outer's holder is in the group before the outer is subscribed", ok_,
